@@ -48,6 +48,24 @@ def errors():
     return out
 
 
+def adopt(childpid):
+    """append the report log of a forked child to this process's log, so that the reports the child wrote (recover mode:
+    it keeps running) are attributed to the case that forked it."""
+    base = os.environ.get('VERIF_ASAN_LOG')
+    if not base:
+        return
+    cf = '%s.%d' % (base, childpid)
+    try:
+        with open(cf, 'rb') as fh:
+            data = fh.read()
+        os.unlink(cf)
+    except OSError:
+        return
+    if data:
+        with open(_logfile(), 'ab') as fh:
+            fh.write(data)
+
+
 def cleanup():
     base = os.environ.get('VERIF_ASAN_LOG')
     if base:
